@@ -21,6 +21,15 @@ func main() { mon.Main("C07", "exploration", mon.Options{}, run) }
 var r *mon.Run
 var total int64
 
+// the previously returned payload and a copy of it: an encoder that hands out
+// shared storage shows as an earlier result changing under a later Pack
+var prevPayload, prevCopy []byte
+var prevType string
+
+// one long-lived instance per type: an application decodes every telegram of a
+// group address into the same variable
+var reused = map[string]dpt.Datapoint{}
+
 // encDec packs v, checks length/leading octet/self-decodability and returns
 // the decoded instance (nil on violation already reported).
 func encDec(d spec.DPT, v dpt.Datapoint, show string) (dpt.Datapoint, []byte) {
@@ -32,6 +41,11 @@ func encDec(d spec.DPT, v dpt.Datapoint, show string) (dpt.Datapoint, []byte) {
 		return nil, nil
 	}
 	c["payload"] = hex.EncodeToString(p)
+	if prevPayload != nil && string(prevPayload) != string(prevCopy) {
+		r.Violate("encode.shared-storage", map[string]string{"type": d.Name}, c, "%s: Pack(%s) changed the payload an earlier Pack call (%s) had returned: %x became %x (encodings share storage)", d.Name, show, prevType, prevCopy, prevPayload)
+		prevPayload = nil
+	}
+	prevPayload, prevCopy, prevType = p, append([]byte(nil), p...), d.Name
 	if d.Len > 0 && len(p) != d.Len {
 		r.Violate("length", map[string]string{"type": d.Name}, c, "%s: Pack(%s) = %x has length %d, the format prescribes %d", d.Name, show, p, len(p), d.Len)
 		return nil, p
@@ -52,6 +66,33 @@ func encDec(d spec.DPT, v dpt.Datapoint, show string) (dpt.Datapoint, []byte) {
 	if err != nil {
 		r.Violate("self-decode", map[string]string{"type": d.Name}, c, "%s: Pack(%s) = %x is rejected by the type's own decoder: %v", d.Name, show, p, err)
 		return nil, p
+	}
+	// decoding into a long-lived instance gives the same value as decoding into a fresh one
+	{
+		h := reused[d.Name]
+		if h == nil {
+			h = dptx.New(d.Name)
+			reused[d.Name] = h
+		}
+		before := dptx.Show(h)
+		if e2, p2 := dptx.Unpack(h, p); e2 == nil && p2 == "" && !dptx.Equal(h, w) {
+			r.Violate("decode.history", map[string]string{"type": d.Name}, c, "%s: %x decodes to %s in a fresh instance but to %s in an instance that held %s before", d.Name, p, dptx.Show(w), dptx.Show(h), before)
+			reused[d.Name] = nil
+		}
+	}
+	// the decoded value must own its data: overwrite a copy of the payload it was decoded from
+	{
+		q := append([]byte(nil), p...)
+		w2 := dptx.New(d.Name)
+		if e2, p2 := dptx.Unpack(w2, q); e2 == nil && p2 == "" {
+			before := dptx.Show(w2)
+			for i := range q {
+				q[i] ^= 0x5a
+			}
+			if after := dptx.Show(w2); after != before {
+				r.Violate("decode.aliasing", map[string]string{"type": d.Name}, c, "%s: the value decoded from %x changes when the payload buffer is overwritten afterwards (%s -> %s)", d.Name, p, before, after)
+			}
+		}
 	}
 	return w, p
 }
